@@ -512,6 +512,7 @@ func runSQLiteOpen(t *testing.T, prop string, seed uint64, tier string, replay *
 		db.Close()
 	}
 	before := readFiles(dbDir)
+	logicalBefore := fingerprint(dbPath)
 	// open through the recorder so that writes to the main database file are visible
 	rec := simvfs.New()
 	rec.Install()
@@ -529,6 +530,10 @@ func runSQLiteOpen(t *testing.T, prop string, seed uint64, tier string, replay *
 		after := readFiles(dbDir)
 		if before["db"] != after["db"] {
 			res.Violate(prop, "refused-but-changed", "configuration %+v: New() refused to open (%v) but the main database file changed", cfg, err)
+		}
+		// the write-ahead log is part of the database: what a later reader sees must be unchanged too
+		if logicalAfter := fingerprint(dbPath); logicalAfter != logicalBefore {
+			res.Violate(prop, "refused-but-content-changed", "configuration %+v: New() refused to open (%v) but the database content changed:\n before: %s\n after:  %s", cfg, err, logicalBefore, logicalAfter)
 		}
 		res.Nontrivial = true
 		return res
@@ -577,3 +582,38 @@ func readFiles(dir string) map[string]string {
 }
 
 var _ = protocol.KeyComposite_SIMPLE
+
+// fingerprint renders what a reader of the database sees: user_version, schema objects and all rows.
+func fingerprint(dbPath string) string {
+	db, err := sql.Open("sqlite3", "file:"+dbPath)
+	if err != nil {
+		return "open error: " + err.Error()
+	}
+	defer db.Close()
+	var sb strings.Builder
+	var uv int
+	if err := db.QueryRow("PRAGMA user_version").Scan(&uv); err != nil {
+		return "unreadable: " + err.Error()
+	}
+	fmt.Fprintf(&sb, "user_version=%d;", uv)
+	rows, err := db.Query("SELECT type, name, COALESCE(sql,'') FROM sqlite_schema ORDER BY name")
+	if err != nil {
+		return sb.String() + "schema unreadable: " + err.Error()
+	}
+	var tables []string
+	for rows.Next() {
+		var ty, name, ddl string
+		rows.Scan(&ty, &name, &ddl)
+		fmt.Fprintf(&sb, "%s %s;", ty, name)
+		if ty == "table" {
+			tables = append(tables, name)
+		}
+	}
+	rows.Close()
+	for _, t := range tables {
+		var n int
+		db.QueryRow("SELECT COUNT(*) FROM `" + t + "`").Scan(&n)
+		fmt.Fprintf(&sb, "%s:%d rows;", t, n)
+	}
+	return sb.String()
+}
